@@ -16,11 +16,11 @@ import (
 type G struct {
 	T *verifsim.Tape
 	// Bias knobs (swarm parameters, drawn per run by the harness)
-	ErrBias   int  // 0..3: how often ill-typed sub-expressions are produced
-	NoExt     bool // no extension calls
-	RecBias   int  // 0..3: how often record literals / context access appear
-	MaxDepth  int
-	Uni       bool // allow non-ASCII text in strings and comments
+	ErrBias  int  // 0..3: how often ill-typed sub-expressions are produced
+	NoExt    bool // no extension calls
+	RecBias  int  // 0..3: how often record literals / context access appear
+	MaxDepth int
+	Uni      bool // allow non-ASCII text in strings and comments
 }
 
 func New(t *verifsim.Tape) *G { return &G{T: t, MaxDepth: 3, ErrBias: 1, RecBias: 1} }
